@@ -33,7 +33,7 @@ ABS_FLOOR = 1e-10
 
 
 def generate(rng, tier, index):
-    lossy = bool(rng.uniform() < 0.4)
+    lossy = bool(rng.uniform() < 0.25) or index % 4 == 1  # every fourth scene is conductive whatever was drawn
     spec = specgen.rand_scene(
         rng, T=(3, 12), shape=(4, 7), pml=(2, 4), p_nonuniform=0.3, tiers=("iso", "diag"), sigma_e=lossy, mu=True,
         source_kinds=("dipole", "dipole", "uniform_plane"), n_sources=(1, 2), n_detectors=(1, 3), switches=True,
@@ -46,9 +46,13 @@ def generate(rng, tier, index):
         m.pop("sigma_e_tier", None)
     else:
         m["sigma_e_max"] = 2.5e-3
+        if index % 4 == 1 and not m.get("sigma_e_tier"):
+            m["sigma_e_tier"] = specgen.choice(rng, ["iso", "diag"])
         # conductive also means magnetically conductive (per-step loss factor up to ~0.2, as in C02); a checkpoint at every
-        # step is taken for these scenes, as the statement says
-        if m.get("mu_tier") in ("iso", "diag") and rng.uniform() < 0.6:
+        # step is taken for these scenes, as the statement says. Every eighth scene has a magnetically conductive medium.
+        if index % 8 == 1 and m.get("mu_tier") not in ("iso", "diag"):
+            m["mu_tier"] = specgen.choice(rng, ["iso", "diag"])
+        if m.get("mu_tier") in ("iso", "diag") and (rng.uniform() < 0.6 or index % 8 == 1):
             m["sigma_h_tier"] = specgen.choice(rng, ["iso", "diag"])
             m["sigma_h_max"] = 300.0
     # fully anisotropic (9-component) lossless tensors: only in scenes without absorbing layers - next to a PML the reverse
@@ -83,7 +87,7 @@ def generate(rng, tier, index):
         spec["sources"].append(s0)
     T = spec["steps"]
     spec["gradient"] = {"method": "reversible", "recorder": []}
-    is_lossy = bool(m.get("sigma_e_tier"))
+    is_lossy = bool(m.get("sigma_e_tier") or m.get("sigma_h_tier"))
     ks = [T - 1] if is_lossy else sorted({0, T - 1, int(rng.integers(0, T))})
     spec["ops"] = [{"op": "reversible", "k": k} for k in ks]
     spec["cot_seed"] = int(rng.integers(0, 2**31))
@@ -213,7 +217,8 @@ def execute(spec):
     stats["sim_time_fs"] = stats["sim_steps"] * scn.dt * 1e15
     stats["probe_pml"] = int(any(f["kind"] == "pml" for f in spec["faces"].values()))
     stats["probe_full_tensor"] = int(spec["materials"].get("eps_tier") == "full")
-    stats["probe_lossy"] = int(bool(spec["materials"].get("sigma_e_tier")))
+    stats["probe_lossy"] = int(bool(spec["materials"].get("sigma_e_tier") or spec["materials"].get("sigma_h_tier")))
+    stats["probe_magnetically_lossy"] = int(bool(spec["materials"].get("sigma_h_tier")))
     stats["probe_mu_gradient"] = int(mu_is_array)
     stats["probe_complex_output"] = int(any(jnp.iscomplexobj(v) for v in w.values()))
     sig = specgen.scene_signature(spec, [o["k"] == 0 for o in spec["ops"]], len(spec["ops"]))
